@@ -24,8 +24,8 @@ NUM_U = """            if scale_powered != 1:
 MUTS = {
     'C02': [
         ('M1 nbits_for_uint(max - min) without + 1 (numeric columns)', ENC,
-         "            min_value, max_value = state.minmax(values)\n            nbits_diff = nbits_for_uint(max_value - min_value + 1)\n            # Now subtract",
-         "            min_value, max_value = state.minmax(values)\n            nbits_diff = nbits_for_uint(max_value - min_value)\n            # Now subtract"),
+         "                nbits_diff = nbits_for_uint(max_value - min_value + 1)\n                # Now subtract",
+         "                nbits_diff = nbits_for_uint(max_value - min_value)\n                # Now subtract"),
         ('M2 descriptor Y written on 7 bits + 1', ENC,
          "            bit_writer.write_uint(descriptor.Y, 8)",
          "            bit_writer.write_uint(descriptor.Y >> 1, 7)\n            bit_writer.write_uint(1, 1)"),
@@ -36,8 +36,8 @@ MUTS = {
          "        else:\n            value = NUMERIC_MISSING_VALUES[nbits]\n        bit_writer.write_uint(value, nbits)\n\n    def process_numeric_compressed",
          "        else:\n            value = 0\n        bit_writer.write_uint(value, nbits)\n\n    def process_numeric_compressed"),
         ('M5 missing written as zero in compressed numeric columns only', ENC,
-         "                if value is None:\n                    value = NUMERIC_MISSING_VALUES[nbits_diff]\n                else:\n                    value -= min_value\n                values[idx] = value\n\n        bit_writer.write_uint(min_value, nbits_min_value)\n        bit_writer.write_uint(nbits_diff, NBITS_FOR_NBITS_DIFF)\n\n        if nbits_diff:\n            for value in values:\n                bit_writer.write_uint(value, nbits_diff)\n\n    def process_string(",
-         "                if value is None:\n                    value = 0\n                else:\n                    value -= min_value\n                values[idx] = value\n\n        bit_writer.write_uint(min_value, nbits_min_value)\n        bit_writer.write_uint(nbits_diff, NBITS_FOR_NBITS_DIFF)\n\n        if nbits_diff:\n            for value in values:\n                bit_writer.write_uint(value, nbits_diff)\n\n    def process_string("),
+         "                    if value is None:\n                        value = NUMERIC_MISSING_VALUES[nbits_diff]\n                    else:\n                        value -= min_value\n                    values[idx] = value\n\n        bit_writer.write_uint(min_value, nbits_min_value)\n        bit_writer.write_uint(nbits_diff, NBITS_FOR_NBITS_DIFF)\n\n        if nbits_diff:\n            for value in values:\n                bit_writer.write_uint(value, nbits_diff)\n\n    def process_string(",
+         "                    if value is None:\n                        value = 0\n                    else:\n                        value -= min_value\n                    values[idx] = value\n\n        bit_writer.write_uint(min_value, nbits_min_value)\n        bit_writer.write_uint(nbits_diff, NBITS_FOR_NBITS_DIFF)\n\n        if nbits_diff:\n            for value in values:\n                bit_writer.write_uint(value, nbits_diff)\n\n    def process_string("),
         ('M6 strings padded with NUL', BIT, "value += b' ' * (nbytes - value_len)", "value += b'\\0' * (nbytes - value_len)"),
         ('M7 all_equal computed on the first two subsets', ENC,
          "all_equal = values.count(values[0]) == state.n_subsets",
@@ -52,8 +52,8 @@ MUTS = {
          "            min_value = '\\0' * nbytes_min_value\n            nbytes_diff = nbytes_min_value",
          "            min_value = values[0] if values[0] is not None else '\\0' * nbytes_min_value\n            nbytes_diff = nbytes_min_value"),
         ('M12 compressed code/flag minimum taken over the first n-1 subsets', ENC,
-         "            min_value, max_value = state.minmax(values)\n            nbits_diff = nbits_for_uint(max_value - min_value + 1)\n            # Subtract",
-         "            min_value, max_value = state.minmax(values)\n            min_value = min(min_value, 0)\n            nbits_diff = nbits_for_uint(max_value - min_value + 1)\n            # Subtract"),
+         "                nbits_diff = nbits_for_uint(max_value - min_value + 1)\n                # Subtract",
+         "                min_value = min(min_value, 0)\n                nbits_diff = nbits_for_uint(max_value - min_value + 1)\n                # Subtract"),
         ('M13 X of a descriptor taken modulo 32', ENC,
          "            bit_writer.write_uint(descriptor.X, 6)", "            bit_writer.write_uint(descriptor.X % 32, 6)"),
     ],
@@ -81,8 +81,8 @@ MUTS = {
          "        if value is not None:\n            if refval:\n                value += refval\n            if scale_powered != 1:\n                value /= scale_powered\n        state.decoded_values.append(value)",
          "        if value is not None:\n            if scale_powered != 1:\n                value /= scale_powered\n            if refval:\n                value += refval\n        state.decoded_values.append(value)"),
         ('M9 nbits_for_uint without + 1 in numeric columns (bits differ, data intact)', ENC,
-         "            min_value, max_value = state.minmax(values)\n            nbits_diff = nbits_for_uint(max_value - min_value + 1)\n            # Now subtract",
-         "            min_value, max_value = state.minmax(values)\n            nbits_diff = nbits_for_uint(max_value - min_value)\n            # Now subtract"),
+         "                nbits_diff = nbits_for_uint(max_value - min_value + 1)\n                # Now subtract",
+         "                nbits_diff = nbits_for_uint(max_value - min_value)\n                # Now subtract"),
         ('M10 flat JSON drops the sign of negative values', 'pybufrkit/renderer.py',
          "        return template_data.decoded_values_all_subsets\n",
          "        return [[abs(v) if isinstance(v, float) else v for v in vs] for vs in template_data.decoded_values_all_subsets]\n"),
